@@ -398,3 +398,25 @@ func (b *Book) Members(r *rand.Rand) []Member {
 	members = append(members, b.Extra...)
 	return members
 }
+
+// SimpleBook packs ready-made XHTML content documents into a minimal EPUB 3:
+// mimetype, container, package document (title, one creator), nav document and
+// the chapters in spine order.
+func SimpleBook(title string, chapters [][]byte) []byte {
+	var man, spine, nav strings.Builder
+	members := []Member{{Name: "mimetype", Data: []byte("application/epub+zip"), Store: true},
+		{Name: "META-INF/container.xml", Data: ContainerXML("OEBPS/content.opf")}}
+	var chs []Member
+	for i, c := range chapters {
+		name := fmt.Sprintf("text/ch%d.xhtml", i+1)
+		fmt.Fprintf(&man, `<item id="ch%d" href="%s" media-type="application/xhtml+xml"/>`+"\n", i+1, name)
+		fmt.Fprintf(&spine, `<itemref idref="ch%d"/>`+"\n", i+1)
+		fmt.Fprintf(&nav, `<li><a href="%s">Chapter %d</a></li>`, name, i+1)
+		chs = append(chs, Member{Name: "OEBPS/" + name, Data: c})
+	}
+	opf := `<?xml version="1.0" encoding="UTF-8"?>` + "\n" + `<package xmlns="http://www.idpf.org/2007/opf" version="3.0" unique-identifier="uid"><metadata xmlns:dc="http://purl.org/dc/elements/1.1/"><dc:identifier id="uid">urn:uuid:00000000-0000-4000-8000-000000000001</dc:identifier><dc:title>` + esc(title) + `</dc:title><dc:creator>Verif Harness</dc:creator><dc:language>en</dc:language><meta property="dcterms:modified">2020-01-01T00:00:00Z</meta></metadata><manifest><item id="nav" href="nav.xhtml" media-type="application/xhtml+xml" properties="nav"/>` + "\n" + man.String() + `</manifest><spine>` + spine.String() + `</spine></package>`
+	navDoc := `<?xml version="1.0" encoding="UTF-8"?>` + "\n" + `<html xmlns="http://www.w3.org/1999/xhtml" xmlns:epub="http://www.idpf.org/2007/ops"><head><title>Contents</title></head><body><nav epub:type="toc"><ol>` + nav.String() + `</ol></nav></body></html>`
+	members = append(members, Member{Name: "OEBPS/content.opf", Data: []byte(opf)}, Member{Name: "OEBPS/nav.xhtml", Data: []byte(navDoc)})
+	members = append(members, chs...)
+	return Zip(members)
+}
